@@ -11,6 +11,7 @@ struct Counters
     int runs[3] = {0, 0, 0};
     int in_body = 0;
     int destroyed[3] = {0, 0, 0};
+    int hogs = 0, migrated = 0;
 };
 static Counters* g;
 struct Body
@@ -169,11 +170,22 @@ struct SelfBody
     void operator()() const noexcept;
 };
 static pika::stop_callback<SelfBody>* g_self[2];
+static int g_self_migrate;
+static int g_self_yields;    // pika tasks: the callback yields first (it may be resumed on another worker: "its own thread" is the pika thread, not the OS thread)
 void SelfBody::operator()() const noexcept
 {
     ++g->runs[idx];
     if (idx == 1)
     {
+        if (g_self_migrate)
+        {
+            // keep this worker busy with another task while this one is pending: the idle worker steals it
+            std::size_t w0 = pika::get_worker_thread_num();
+            rt::spawn([] { for (int k = 0; k < 3; ++k) pmc_point("hog"); ++g->hogs; });
+            pika::this_thread::yield();
+            if (pika::get_worker_thread_num() != w0) g->migrated = 1;
+        }
+        for (int i = 0; i < g_self_yields; ++i) pika::this_thread::yield();
         // registered last => runs first: destroys itself and its sibling from inside the callback
         auto* me = g_self[1];
         g_self[1] = nullptr;
@@ -186,7 +198,7 @@ void SelfBody::operator()() const noexcept
     }
     else if (g->destroyed[0]) pmc_fail("callback-after-destructor", "sibling callback ran after its destructor returned");
 }
-template <bool OS>
+template <bool OS, int MIGRATE = 0>
 static void self_destroy()
 {
     static Counters c;
@@ -197,10 +209,12 @@ static void self_destroy()
     pmc_watch(src.state_.get(), sizeof(*src.state_.get()), "stop_state");
     g_self[0] = new pika::stop_callback<SelfBody>(tok, SelfBody{0});
     g_self[1] = new pika::stop_callback<SelfBody>(tok, SelfBody{1});
+    g_self_yields = OS || MIGRATE ? 0 : pmc_choose(3, 0);
+    g_self_migrate = MIGRATE;
     run_threads<OS>(2, [&](int) { if (src.request_stop()) ++c.trues; });
     PMC_ASSERT(c.finished == 2 && c.trues == 1, "request-stop-winners", "finished=%d trues=%d", c.finished, c.trues);
     PMC_ASSERT(c.runs[1] == 1 && c.runs[0] == 0, "callback-count", "self-destroying callback ran %d times, deregistered sibling ran %d times", c.runs[1], c.runs[0]);
-    pmc_outcome("ok");
+    pmc_outcome("ok yields=%d migrated=%d", g_self_yields, c.migrated);
 }
 
 int main(int argc, char** argv)
@@ -217,6 +231,7 @@ int main(int argc, char** argv)
         {"query_race_os", query_race<true>, 3, 5, 0.05, 0.05, 1, focus, nullptr, nullptr},
         {"self_destroy_os", self_destroy<true>, 3, 5, 0.05, 0.05, 1, focus, nullptr, nullptr},
         {"self_destroy_tasks", self_destroy<false>, 2, 3, 0.1, 0.1, 1, focus, nullptr, nullptr},
+        {"self_destroy_migrated", self_destroy<false, 1>, 2, 3, 0.15, 0.1, 1, "the callback spawns a task that keeps its worker busy, yields and is resumed by the other worker (its OS thread changes, its pika thread does not) before it destroys itself", nullptr, nullptr},
     };
     static const char* assumptions[] = {"sequentially consistent interleavings only", "2-3 racing threads/tasks, 2 workers"};
     pmc_config cfg{};
